@@ -168,7 +168,7 @@ OPERATOR_CONSTS = ("Layouts", "TLs", "InnerLayout", "Modes")
 
 
 def exec_mc(ctx, name, invs, workers=8):
-    c = EXEC_CFGS[name]
+    c = dict(EXEC_CFGS[name], Mut='"none"')
     lines = ["SPECIFICATION Spec", "CHECK_DEADLOCK FALSE", "CONSTANTS"]
     for k, v in c.items():
         lines.append("  %s %s %s" % (k, "<-" if k in OPERATOR_CONSTS else "=", v))
@@ -252,18 +252,20 @@ EXEC_MODEL_INVS = {
 }
 
 
-def exec_family(ctx, prop, extra=(), nopar=False, mc=("flat",), mc_thorough=()):
+def exec_family(ctx, prop, extra=(), nopar=False, mc=("flat",), mc_thorough=(), big=True):
     invs = TRACE_INVS[prop]
     for m in mc + (() if ctx.quick() else tuple(mc_thorough)):
         exec_mc(ctx, m, EXEC_MODEL_INVS[prop])
     if ctx.quick():
         exec_i2s(ctx, invs, count=40, nmin=3, nmax=30, dispatches=3, extra=extra)
-        exec_i2s(ctx, invs, count=4, nmin=60, nmax=150, nres=12, dispatches=2, extra=list(extra) + ["--gated", 0.5], seed_off=1)
+        if big:
+            exec_i2s(ctx, invs, count=4, nmin=60, nmax=150, nres=12, dispatches=2, extra=list(extra) + ["--gated", 0.5], seed_off=1)
         if nopar:
             exec_i2s(ctx, invs, count=20, nmin=3, nmax=30, dispatches=2, extra=extra, parallel=False, seed_off=2)
     else:
         exec_i2s(ctx, invs, count=400, nmin=3, nmax=40, dispatches=4, extra=extra)
-        exec_i2s(ctx, invs, count=30, nmin=60, nmax=300, nres=14, dispatches=2, extra=list(extra) + ["--gated", 0.5], seed_off=1)
+        if big:
+            exec_i2s(ctx, invs, count=30, nmin=60, nmax=300, nres=14, dispatches=2, extra=list(extra) + ["--gated", 0.5], seed_off=1)
         if nopar:
             exec_i2s(ctx, invs, count=100, nmin=3, nmax=40, dispatches=3, extra=extra, parallel=False, seed_off=2)
     ctx.assumptions += [
@@ -298,7 +300,9 @@ def check_C05(ctx):
 
 
 def check_C07(ctx):
-    exec_family(ctx, "C07", extra=["--pbatch", 0.3, "--depth", 3, "--nmax", 20], mc=("batch", "batchseq"))
+    exec_family(ctx, "C07", extra=["--pbatch", 0.3, "--depth", 3], mc=("batch", "batchseq"), big=False)
+    exec_i2s(ctx, TRACE_INVS["C07"], count=6 if ctx.quick() else 60, nmin=30, nmax=70, nres=10, dispatches=2,
+             extra=["--pbatch", 0.12, "--depth", 2], seed_off=5)
     # the scenario of known finding KF1 (reported as KNOWN-FINDING while listed)
     exec_scenarios(ctx, TRACE_INVS["C07"], KF1_PROGS, "thread-local system inside a batch")
 
